@@ -63,7 +63,7 @@ func (c *Ctx) runStoreGen(g *StoreGen, per int, purpose string) {
 	var n int64
 	var parseErr error
 	o := TLCOpts{Module: name, Cfg: cfg, Purpose: purpose, Extra: map[string]string{name + ".tla": text},
-		Simulate: g.Simulate, Num: g.Num, Depth: g.Depth + 1, Seed: c.Seed, Constants: g.describe(), Timeout: 40 * time.Minute}
+		Simulate: g.Simulate, Num: g.Num, Depth: g.Depth + 1, Seed: c.Seed, Constants: g.describe(), Timeout: 120 * time.Minute}
 	if g.Simulate {
 		o.Workers = 4
 		o.Num = (g.Num + 3) / 4
@@ -183,7 +183,7 @@ func (c *Ctx) runPagedImplMC() {
 		slots, keys string
 		maxTotal    int
 	}
-	confs := []conf{{"{1}", "PKeys3", c.pick(10, 12)}, {"{1, 2}", "PKeys3", c.pick(2, 3)}}
+	confs := []conf{{"{1}", "PKeys3", c.pick(10, 12)}, {"{1, 2}", "PKeys3", 2}}
 	for _, cf := range confs {
 		cfg := fmt.Sprintf(`SPECIFICATION Spec
 CONSTANTS
